@@ -71,6 +71,32 @@ def judge(acc, case, prog, cfg, rng):
     # feasibility tolerance of the returned instance: the heuristic problems are solved to solver tolerance too
     for f in pf:
         findings.append(dict(f, key="dimred:" + f["key"]))
+    # the wrapper's public getter of the multipliers is a read: it hands back the multipliers of the ORIGINAL problem (those
+    # the constraints expose) and leaves them as they are, although the solver's current problem is the heuristic one
+    if not any(f["grade"] == "violated" for f in cf) and getattr(rec["pep"], "wrapper", None) is not None:
+        try:
+            got = rec["pep"].wrapper.get_dual_variables()
+        except Exception as e:
+            got = e
+        acc.count("dual_getter_calls_judged")
+        if isinstance(got, Exception):
+            findings.append({"key": "dual_getter_raises_after_heuristic", "what": "wrapper.get_dual_variables() raised %r after a finite solve" % (got,),
+                             "grade": "violated", "defect": 1, "scale": 1})
+        else:
+            res_ = np.asarray(got[1], dtype=float)
+            R0 = np.asarray(rec["pep"].residual, dtype=float)
+            scr = cinfo.get("scale", 1.0)
+            if res_.shape != R0.shape:
+                findings.append({"key": "dual_getter_residual_differs_from_exposed_residual", "what": "shapes %r vs %r" % (res_.shape, R0.shape),
+                                 "grade": "violated", "defect": 1, "scale": 1})
+            else:
+                add("dual_getter_residual_differs_from_exposed_residual", "the residual handed back by wrapper.get_dual_variables() differs "
+                    "from PEP.residual by %.3e" % float(np.max(np.abs(res_ - R0), initial=0.0)), float(np.max(np.abs(res_ - R0), initial=0.0)), scr, fam)
+            cf2, cinfo2 = oracles.certificate_check(rec, ret, mode)
+            for f in cf2:
+                if f["key"] not in oracles.C01_KNOWN_KEYS and f["grade"] == "violated":
+                    findings.append(dict(f, key="after_dual_getter:" + f["key"],
+                                         what="after calling wrapper.get_dual_variables(): " + f["what"]))
     # DESIGN 2.8: the scale includes the size of the primal solution (the heuristic problems are badly scaled:
     # weights up to 1/eig_regularization, Gram entries of 1e6 with SCS), not only the multipliers
     sc = max(cinfo.get("scale", 1.0), pinfo.get("scale", 1.0))
